@@ -91,3 +91,58 @@ func c06DrawSelects(c *Ctx) {
 	sort.Strings(readers)
 	c.Check("C06.R5", "pkg/router.weightedClusterEntry.clusterName:picked-only-by-the-draw", fn.Pos(), len(readers) == 1 && readers[0] == "ClusterName", "only ClusterName reads a weighted entry's name", "a member of the weighted-cluster table is picked outside the weighted draw ("+strings.Join(readers, ", ")+"): that choice ignores the configured weights")
 }
+
+// oneCriticalSection: a and b both execute with `mutex` held and no explicit Unlock of it lies on a path from a to b.
+func oneCriticalSection(fn *ssa.Function, a, b ssa.Instruction, mutex string) bool {
+	if !lockHeld(a, mutex) || !lockHeld(b, mutex) {
+		return false
+	}
+	isUnlock := func(in ssa.Instruction) bool {
+		ci, ok := in.(*ssa.Call)
+		if !ok || len(ci.Common().Args) == 0 {
+			return false
+		}
+		if n := methodName(ci.Common()); n != "Unlock" && n != "RUnlock" {
+			return false
+		}
+		_, f, _, okf := fieldAddrInfo(ci.Common().Args[0])
+		return okf && f == mutex
+	}
+	for _, blk := range fn.Blocks {
+		for _, u := range blk.Instrs {
+			if !isUnlock(u) {
+				continue
+			}
+			u := u
+			if existsPath(fn, a, func(x ssa.Instruction) bool { return x == u }, func(x ssa.Instruction) bool { return x == b }) != nil &&
+				existsPath(fn, u, func(x ssa.Instruction) bool { return x == b }, nil) != nil {
+				return false
+			}
+		}
+	}
+	return true
+}
+
+// c06PickAtomic (R6): picking the entry with the earliest deadline and re-queueing it with its new deadline is one
+// critical section. The EDF scheduler's fairness argument (each entry is served once per 1/weight of virtual time)
+// assumes that the entry whose deadline is advanced is the heap's root *at that moment*. If the scheduler lock is released
+// between Peek() and Fix(0) - e.g. to evaluate the weight function outside the lock - a second picker serves and re-queues
+// the same entry in the gap; the first picker then advances the deadline of an entry that sits somewhere in the heap,
+// fixes an unrelated root, and hands the same host out twice: the shares drift beyond the bounded lag.
+func c06PickAtomic(c *Ctx) {
+	fn := c.M("pkg/upstream/cluster", "edfScheduler", "NextAndPush")
+	if fn == nil {
+		c.Unresolved("C06.R6", "edfScheduler.NextAndPush")
+		return
+	}
+	peek := callsIn(fn, false, func(cc *ssa.CallCommon) bool { return methodName(cc) == "Peek" })
+	fix := callsIn(fn, false, func(cc *ssa.CallCommon) bool { n := methodName(cc); return n == "Fix" || n == "Push" })
+	if len(peek) != 1 || len(fix) < 1 {
+		c.Unresolved("C06.R6", fmt.Sprintf("Peek / Fix calls of NextAndPush (found %d / %d)", len(peek), len(fix)))
+		return
+	}
+	for i, f := range fix {
+		ok := oneCriticalSection(fn, peek[0].Instr, f.Instr, "lock")
+		c.Check("C06.R6", fmt.Sprintf("%s:pick-and-requeue-atomic#%d", funcKey(fn), i+1), f.Instr.Pos(), ok, "Peek and the re-queue run under one hold of the scheduler lock", "the scheduler lock is released between Peek() and the re-queue of the picked entry: a concurrent picker serves the same entry in the gap, its deadline is then advanced while it is no longer the root and the heap is fixed at the wrong position - one host is handed out twice, the weighted shares drift beyond the bounded lag")
+	}
+}
